@@ -273,7 +273,13 @@ func cmdCheck(args []string) int {
 			}
 			for caller := range found {
 				st := "unsat"
-				if !allowed[caller] {
+				ok := allowed[caller]
+				for a := range allowed {
+					if strings.HasSuffix(a, "*") && strings.HasPrefix(caller, strings.TrimSuffix(a, "*")) {
+						ok = true
+					}
+				}
+				if !ok {
 					st = "failed"
 				}
 				rep.add(&OblResult{Name: fmt.Sprintf("%s#callers:%s", shortFn(target), caller), Kind: "K5", Status: st, Backend: "call-site scan (no solver)",
@@ -500,6 +506,13 @@ func runUnit(P *Program, rep *Report, c *Contract, fn *ssa.Function, id string, 
 	}
 	e.oblOrder = order
 	e.discharge(cfg)
+	if os.Getenv("GOVC_TIMES") != "" {
+		for _, n := range e.oblOrder {
+			if o := e.obls[n]; o.Secs > 6 && !strings.Contains(o.Backend, "incremental") {
+				fmt.Fprintf(os.Stderr, "slowobl %.1fs %s %s\n", o.Secs, o.Backend, o.Name)
+			}
+		}
+	}
 	for _, n := range e.oblOrder {
 		o := e.obls[n]
 		if retry[o.Name] {
